@@ -140,6 +140,23 @@ impl<'a, 'ast> Visit<'ast> for PatV<'a> {
     }
 }
 
+/// every named field of every AST struct and struct-like enum variant (`Type.field`,
+/// `Enum::Variant.field`): the stream renderers of the harness match these types with `..`
+/// patterns, so a NEW field would be ignored silently — it is an open obligation instead
+pub fn ast_fields(repo: &Path) -> Result<Vec<String>, String> {
+    let mut defs = Defs::default();
+    for f in rs_files(&repo.join("src/ast")) {
+        let src = fs::read_to_string(&f).map_err(|e| e.to_string())?;
+        let file = syn::parse_file(&src).map_err(|e| format!("{f:?}: {e}"))?;
+        collect_defs(&file.items, &mut defs);
+    }
+    let mut out = vec![];
+    for (t, fs_) in &defs.structs { for f in fs_ { out.push(format!("{t}.{f}")); } }
+    for (e, vs) in &defs.enums { for (v, fs_) in vs { for f in fs_ { out.push(format!("{e}::{v}.{f}")); } } }
+    out.sort();
+    Ok(out)
+}
+
 pub fn run(repo: &Path) -> Result<Vec<String>, String> {
     let mut defs = Defs::default();
     let mut files = vec![];
